@@ -147,7 +147,7 @@ func TestVerifyRequest(t *testing.T) {
 
 		class := gen.Pick(t, []string{"honest", "flip-requestkey", "flip-namekeyid", "flip-ciphertext", "flip-signature",
 			"sig-from-other-client", "sig-from-other-blind", "whole-request-other-blind", "sig-malleated", "sig-extreme",
-			"blind-other", "blind-leading-zero", "blind-empty", "blind-plus-order", "blind-unusual-value", "sig-boundary-shifted-after-honest", "clientkey-other", "clientkey-negated", "clientkey-malformed", "requestkey-malformed",
+			"blind-other", "blind-leading-zero", "blind-empty", "blind-plus-order", "blind-unusual-value", "sig-boundary-shifted-after-honest", "argument-boundary-shifted-after-honest", "clientkey-other", "clientkey-negated", "clientkey-malformed", "requestkey-malformed",
 			"ciphertext-other-request", "requestkey-other-client", "namekeyid-extended", "namekeyid-shortened", "ciphertext-extended", "ciphertext-shortened",
 			"requestkey-replaced-signed-by-blinded-key", "contents-changed-signed-by-blinded-key"}, "class")
 		switch class {
@@ -284,6 +284,19 @@ func TestVerifyRequest(t *testing.T) {
 			shifted[47] = sig[48]
 			copy(shifted[49:], sig[49:])
 			req.Signature = shifted
+		case "argument-boundary-shifted-after-honest":
+			// the authentic triple is verified first (same attester); then the same request is presented with the boundary
+			// between the two byte-string arguments moved: client key || blind is the same concatenation, cut elsewhere
+			if err := att.VerifyRequest(req, append([]byte{}, blind...), append([]byte{}, clientKey...), anon); err != nil {
+				rt.Fail(t, "C06/honest-rejected", "honest request rejected: %v", err)
+				return
+			}
+			cat := append(append([]byte{}, clientKey...), blind...)
+			cut := gen.Pick(t, []int{len(clientKey) - 1, len(clientKey) + 1, len(clientKey) + 2, len(clientKey) - 16, 33, 1}, "cut")
+			if cut < 0 || cut > len(cat) || cut == len(clientKey) {
+				cut = len(clientKey) - 1
+			}
+			clientKey, blind = append([]byte{}, cat[:cut]...), append([]byte{}, cat[cut:]...)
 		case "namekeyid-extended":
 			req.NameKeyID = append(req.NameKeyID, gen.Bytes(t, 1, 4, "extra")...)
 		case "namekeyid-shortened":
